@@ -694,7 +694,7 @@ def suite_post(ctx):
 def suite_route(ctx):
     import emg3d
     rng = ctx.nprng('route')
-    n = 40 if ctx.thorough else 12
+    n = 120 if ctx.thorough else 30
     bad = []
     nv0 = len(ctx.violations)
     for t in range(n):
@@ -702,7 +702,8 @@ def suite_route(ctx):
         f = ps[0]['frequency']
         mapping = ps[0]['mapping']
         mp = getattr(emg3d.maps, 'Map'+mapping)()
-        npr = int(rng.choice([1, 2, 3, 4, 7]))
+        _ = rng.choice([1, 2, 3, 4, 7])
+        npr = [7, 3, 4, 2, 1][t % 5]        # every format in every run
         sig = 10.0**rng.uniform(-3, 1, npr)
         with warnings.catch_warnings():
             warnings.simplefilter('ignore')
